@@ -410,7 +410,44 @@ type c19Outcome struct {
 	Events  string
 }
 
+var xpathPredRE = regexp.MustCompile(`\[[^\]]*\]`)
+
 func cmdHead(c string) string {
+	if strings.HasPrefix(c, "action=") {
+		// PAN-OS API command: action + kind of addressed node.
+		action := strings.TrimPrefix(strings.SplitN(c, "&", 2)[0], "action=")
+		xp := ""
+		if i := strings.Index(c, "xpath="); i >= 0 {
+			xp = c[i+6:]
+			if j := strings.Index(xp, "&"); j >= 0 {
+				xp = xp[:j]
+			}
+		}
+		xp = xpathPredRE.ReplaceAllString(xp, "")
+		if i := strings.Index(xp, "/vsys/entry/"); i >= 0 {
+			xp = xp[i+len("/vsys/entry/"):]
+		}
+		xp = strings.TrimPrefix(xp, "rulebase/security/")
+		return action + ":" + xp
+	}
+	if m := regexp.MustCompile(`^(GET|PUT|PATCH|POST|DELETE) (\S+)`).FindStringSubmatch(c); m != nil {
+		// NSX request: method + kind of object.
+		u := m[2]
+		kind := "other"
+		switch {
+		case strings.Contains(u, "/ip-address-expressions/"):
+			kind = "group-expression"
+		case strings.Contains(u, "/rules/"):
+			kind = "rule"
+		case strings.Contains(u, "/gateway-policies/"):
+			kind = "policy"
+		case strings.Contains(u, "/groups/"):
+			kind = "group"
+		case strings.Contains(u, "/services/"):
+			kind = "service"
+		}
+		return m[1] + ":" + kind
+	}
 	f := strings.Fields(c)
 	if len(f) == 0 {
 		return "?"
